@@ -186,7 +186,7 @@ func (eval Evaluator) MultiplyByDiagMatrix(ctIn *rlwe.Ciphertext, matrix LinearT
 	keys := utils.GetSortedKeys(matrix.Vec)
 
 	var state bool
-	if keys[0] == 0 {
+	if len(keys) > 0 && keys[0] == 0 {
 		state = true
 		keys = keys[1:]
 	}
@@ -436,6 +436,14 @@ func (eval Evaluator) MultiplyByDiagMatrixBSGS(ctIn *rlwe.Ciphertext, matrix Lin
 		}
 
 		cnt0++
+	}
+
+	if cnt0 == 0 {
+		// No diagonal at all (zero matrix): nothing was written to the accumulators.
+		c0OutQP.Q.Zero()
+		c0OutQP.P.Zero()
+		c1OutQP.Q.Zero()
+		c1OutQP.P.Zero()
 	}
 
 	if cnt0%QiOverF != 0 {
